@@ -22,14 +22,14 @@ var frozenMin = map[string]int{
 	"P-TAG": 6, "P-TOKEN": 5, "P-VALIDALIAS": 1, "T-CONSTRUCTS": 280, "T-GENNAMES": 4, "T-KEYWORDS": 70, "T-LITFMT": 36,
 	"T-REGEX": 4, "T-RESERVED": 66, "T-STDHINTS": 160, "T-TOKCONTENT": 50, "W-CALLBACK": 90, "W-FS-EFFECTS": 3, "W-GLOBALS-RO": 1,
 	"W-IMPORTS-WRITERS": 5, "W-ISNULL-PURE": 6, "W-NO-CONCURRENCY": 3, "W-NONDET-API": 2, "W-PANICS": 6, "W-REGISTER-CALLERS": 2,
-	"W-RENDER-STORES": 20, "W-FILE-ARGS": 1,
+	"W-RENDER-STORES": 20, "W-FILE-ARGS": 1, "W-NOFORMAT-READERS": 1,
 }
 
 func init() {
 	prop("C01", []string{"T-CONSTRUCTS", "T-KEYWORDS", "P-RENDERITEMS", "P-STMTRENDER", "P-GROUPRENDER", "P-TOKEN", "P-ISNULL", "T-LITFMT", "P-LITCTOR"},
 		"Necessary conditions of faithful rendering, on every path: (a) every construct of the generated API emits exactly the delimiter / separator / keyword tokens Go's grammar has for it (independent grammar table, go/scanner, go/token, types.Universe; X and XFunc twins identical); (b) the generic renderer writes open, items, separators, trailing newline, close in that order and treats every list position after the first identically — there is no edge around a separator or an item render other than {nil/null item, first item, empty separator, not multi}, so arity 4, 40 and 4,000 take the same paths; (c) keyword / identifier / package tokens write their text, `default` always gets its colon, a Block after Case / Default drops its braces exactly then; (d) literal tokens are produced only by Go-syntax formatters applied to the unmodified value (see C11 / C12).",
 		"that arbitrary compositions re-parse to the original tree (depends on go/format and go/parser over all programs); literal values (C11/C12)")
-	prop("C02", []string{"P-FORMAT-GATE", "P-ATOMIC-WRITE", "P-ERR-PROP", "W-PANICS", "T-TOKCONTENT", "P-NILGUARD", "P-BOUNDS"},
+	prop("C02", []string{"P-FORMAT-GATE", "P-ATOMIC-WRITE", "P-ERR-PROP", "W-PANICS", "T-TOKCONTENT", "P-NILGUARD", "P-BOUNDS", "W-NOFORMAT-READERS"},
 		"No success path to the caller's writer avoids format.Source (File.Render: unless NoFormat); the formatter runs once on the private buffer and both modes draw from the same buffer; a formatter error is returned, never written as if valid; the only explicit panic reachable from Render / RenderWithFile / Save is the documented one for unsupported Lit types; token type assertions and item dereferences in the renderer cannot fail; every index and slice expression of the package is in range on every path (comparisons made before it, documented ranges of strings.Index* / utf8.DecodeRune*, lengths implied by HasPrefix / Contains / Quote, sort callbacks). Validity of the bytes then follows from format.Source's contract (trusted).",
 		"that every syntactically invalid composition makes the formatter fail (a property of go/parser)")
 	prop("C03", []string{"P-REGISTER", "P-VALIDALIAS", "P-TOKEN", "P-IMPORTBLOCK", "W-REGISTER-CALLERS", "W-IMPORTS-WRITERS", "W-FILE-ARGS", "T-REGEX", "T-RESERVED"},
@@ -77,7 +77,7 @@ func init() {
 	prop("C17", []string{"P-TAG", "P-MAPRANGE@(jen.tag)", "P-ISNULL@(jen.tag)"},
 		"tag.render writes each pair as key:\"value\" with the value through %q and the value looked up under the printed key, pairs from the sorted key slice joined by exactly one space; the literal is back-quoted only under strconv.CanBackquote and otherwise produced by strconv.Quote; an empty tag is null.",
 		"the round trip through reflect.StructTag for every value (a property of %q and reflect)")
-	prop("C18", []string{"T-STDHINTS", "P-REGISTER", "T-GENNAMES", "W-IMPORTS-WRITERS@hints", "P-IMPORTBLOCK"},
+	prop("C18", []string{"T-STDHINTS", "P-REGISTER", "T-GENNAMES", "W-IMPORTS-WRITERS", "P-IMPORTBLOCK"},
 		"Every entry of the standard-library table whose package is importable equals the package clause parsed from GOROOT/src of the installed toolchain (exhaustive over the table); a table hit may be stored without alias, a guessed name never; gennames reads the go-list fields back from the positions its template wrote them to and emits path: name.",
 		"the output of actually running gennames (it shells out to `go list`); packages newer than the table get a guessed alias, which the property allows")
 	prop("C19", []string{"P-REGISTER", "P-IMPORTBLOCK", "P-FILERENDER-ORDER"},
